@@ -12,6 +12,23 @@ NA_FIXED = {
     'C15': "contracts of mul/fft/ifft/eval_poly and the table contents are values of arithmetic over 2^32 pairs / 65536 entries; reading them off requires evaluation, which is a different technique family.",
 }
 
+# clauses added after the first build (seed rounds 2-4 and the false-alarm studies); appended to the description of the check
+ADDED = {
+    'C03': "Later clauses: C03.e lane-wise value numbering of the mul and butterfly kernels (Ssse3 = Avx2 = Neon), C03.g truncated transforms get a zeroed tail (shared with C05.c), C03.h both arms of an ordering test that split a buffer differently touch the same absolute positions, alignment of aligned-load/store intrinsics in C03.b; the schedule comparison has a second opinion on fully inlined, loop-normalised forms.",
+    'C04': "Later clauses: C04.d also the block index of the partial block and complete rewrite of the store geometry, C04.e/f block and lane pairing, C04.g the shard size steers nothing above the store (value-flow: a branch on it may have at most one successful continuation), C04.h kernels are straight-line lane-wise code (shared with C03.e).",
+    'C05': "Later clauses: C05.g no mutation reaches an Err exit (shared with C07), C05.h grow-only lengths (bitmap length, Vec capacity) are read only to decide whether to grow.",
+    'C06': "Later clauses: C06.d stored configuration is the caller's and the store rewrites its whole geometry, C06.e one-shot functions hand every item to the validating add (shared with C10.b), C06.f round state is cleared at drop and reset (shared with C05.a/b), C06.g census of explicit non-debug panic sites by discharged category.",
+    'C07': "Later: Drop impls of guards as mutation sites, mutations after the failure was produced, same-file private helpers analysed in place (inlined MIR, constant-edge pruning, producers of a re-tried Result).",
+    'C08': "Later clauses: C08.d wrappers only forward (shared with C09.c), C08.e the received bitmap is sized max(base+count) of both kinds, C08.f in-place passes over fixed-size tables cover 0..len (integer constants evaluated by the driver).",
+    'C09': "Later clauses: C09.e the work object handed over at a rate switch is completely reconfigured (shared with C05.a), C09.f any engine: schedules and kernels of the selectable engines are siblings (shared with C03.a/e).",
+    'C10': "Later clauses: C10.e wrappers only forward (shared with C09.c), C10.f the iterator the one-shot decode collects from yields what the accessor exposes (shared with C12.b), C10.g no state survives between calls (shared with C05.f); once(first).chain(rest) and a one-shot function split into private helpers are understood.",
+    'C11': "Later clauses: C11.e placement agreement between decode's bitmap regions and the base positions configured at reset, C11.f every round starts clean (shared with C05.a/b), C11.g one locator evaluation (shared with C03.d); decode_begin's payload may be a tuple, a struct or a variant of a private enum.",
+    'C12': "Later: the iterator protocol is decided on MIR and covers overrides of Iterator methods other than next (fusedness), DoubleEndedIterator etc.",
+    'C14': "Later clauses: C14.f polynomial evaluation only through Engine::eval_poly, C14.g engines identical: schedules, kernels and bounded/aligned vector accesses (shared with C03.a/b/e).",
+    'C16': "",
+    'C17': "Later clauses: C17.e the store is resized to exactly (work_count, ceil(shard_bytes/64)) and allocates count*len blocks.",
+}
+
 CLAIMS = {
     'C08': dict(
         technique="instance-level call resolution (rustc Instance::try_resolve through provided trait methods) for 'one predicate per rate', truth-table evaluation of Rate::validate's typed-HIR decision atoms, interprocedural fail-source summaries for constructors/reset",
@@ -95,7 +112,7 @@ def main():
                 'evidence_file': '/verif/evidence/%s.json' % p,
                 'replay_cmd_template': './check %s --replay {path}' % p,
                 'engine': 'rsfacts+rules',
-                'level_claimed': {'category': 'other', 'text': c['text'], 'design_ref': c['design']},
+                'level_claimed': {'category': 'other', 'text': (c['text'] + (' ' + ADDED[p] if ADDED.get(p) else '')).strip(), 'design_ref': c['design'] + ', §12'},
                 'level_note': c['note'],
                 'technique': c['technique'],
             })
